@@ -16,6 +16,7 @@ LEVEL_TEXT = (
     'connection, UPDATE/End-of-RIB/ROUTE-REFRESH bytes only in ESTABLISHED, the transport is closed when a connected state is left, '
     'and up/down events alternate on the API.'
     ' Neighbors with `local-as auto`, an address-range neighbor with one or two peers, and a motif placing an incoming connection and the removal of the neighbor inside its back-off or pending connect; a neighbor no longer configured may not hold an ESTABLISHED session.'
+    ' A sixth of the plans read the helper pipe slowly (EAGAIN, short writes): the order of the events is what is judged there.'
 )
 LEVEL_NOTE = 'trusts: the transition relation written out in this file from RFC 4271 8.2.2, simulated TCP/listener, pass-through recorder on FSM.change'
 DESIGN_REF = 'DESIGN.md section 5, C05'
